@@ -119,6 +119,24 @@ func checkPrivateKeyJWTClient(ctx context.Context, clientID string, storage Stor
 	return nil
 }
 
+// checkAuthMethodPost refuses a client that is registered for client_secret_post
+// when the provider has not enabled that authentication method.
+// Providers that do not report whether the method is enabled are not restricted.
+func checkAuthMethodPost(ctx context.Context, clientID string, p ClientProvider) error {
+	config, ok := p.(interface{ AuthMethodPostSupported() bool })
+	if !ok || config.AuthMethodPostSupported() {
+		return nil
+	}
+	client, err := p.Storage().GetClientByClientID(ctx, clientID)
+	if err != nil {
+		return oidc.ErrInvalidClient().WithParent(err)
+	}
+	if client.AuthMethod() == oidc.AuthMethodPost {
+		return oidc.ErrInvalidClient().WithDescription("auth_method post not supported")
+	}
+	return nil
+}
+
 func ClientBasicAuth(r *http.Request, storage Storage) (clientID string, err error) {
 	ctx, span := tracer.Start(r.Context(), "ClientBasicAuth")
 	r = r.WithContext(ctx)
@@ -197,6 +215,9 @@ func ClientIDFromRequest(r *http.Request, p ClientProvider) (clientID string, au
 	clientID, err = ClientBasicAuth(r, p.Storage())
 	// if that succeeded, use it
 	if err == nil {
+		if err = checkAuthMethodPost(r.Context(), clientID, p); err != nil {
+			return "", false, err
+		}
 		return clientID, true, nil
 	}
 	// if the client did not send a Basic Auth Header, ignore the `ErrNoClientCredentials`
